@@ -63,6 +63,8 @@ PROPS["C20"] = {
           ["common::protobuf_utils::write_varint64", "common::protobuf_utils::read_varint64_offset"], t_quick=300),
         H("c20", "k20_2_reader_window", "every content of a 10-byte window (the size read_len passes)",
           ["common::protobuf_utils::read_varint64"], t_quick=300),
+        H("c20", "k20_5_compaction", "every content of an 8-byte buffer, every read position 0..=8, every next chunk of 0..=4 bytes that fits without growth",
+          ["MessageBufReader::{new_with_data,append_next_buf}", "move_data_to_start", "copy_data"], t_quick=600, unwindset=NOGROW, group="nogrow"),
         H("c20", "k20_3_drain_n8_c4_b8", "every well-formed 8-byte stream (record boundaries symbolic) read in 4-byte chunks into an 8-byte buffer; drain protocol",
           ["MessageBufReader::{new_with_data,append_next_buf,next_message_vec,is_empty}", "move_data_to_start", "copy_data"], t_quick=900,
           unwindset=NOGROW, group="nogrow", optional_covers=[]),
